@@ -316,7 +316,11 @@ func TestHarness(t *testing.T) {
 			emit(FamPeerFuzz(job.Seed*31337+int64(i), job.Params["percase"]))
 		}
 	case "bcast-stress":
-		emit(BcastStress(job.N))
+		budget := time.Duration(job.Params["budget_s"]) * time.Second
+		if budget <= 0 {
+			budget = 60 * time.Second
+		}
+		emit(BcastStress(job.N, budget))
 	case "remote":
 		for _, c := range RunRemotes() {
 			emit(c)
